@@ -214,7 +214,7 @@ pub fn build_req(id: u32, method: String, path: String, version: &str, mut extra
         let at = (mask as usize >> 16) % (extra.len() + 1);
         extra.insert(at, Hdr { name: case_variant("Expect", mask >> 7), pre: " ".into(), value: case_variant("100-continue", mask >> 9), post: String::new() });
     }
-    ReqSpec { id, method, path, version: version.to_string(), headers: extra, framing, mal: None, body_override: None }
+    ReqSpec { id, method, path, target_prefix: String::new(), version: version.to_string(), headers: extra, framing, mal: None, body_override: None }
 }
 
 pub fn framing_strategy(max_len: usize) -> BoxedStrategy<(Framing, Option<usize>)> {
@@ -289,7 +289,10 @@ pub fn c02_strategy(transports: BoxedStrategy<Transport>) -> BoxedStrategy<ConvC
                 let last = i + 1 == n;
                 let method = if head { "HEAD".to_string() } else { method };
                 let conn = keepalive_for(version, last);
-                conv.reqs.push(build_req(i as u32, method, path, version, headers, Framing::None, None, mask as usize, mask, conn, false));
+                let mut r = build_req(i as u32, method, path, version, headers, Framing::None, None, mask as usize, mask, conn, false);
+                // absolute-form targets are delivered verbatim too
+                r.target_prefix = ["", "", "", "", "http://example.com", "http://h:8080", "https://user@host.example", "HTTP://EXAMPLE.COM:80"][(mask as usize >> 27) % 8].to_string();
+                conv.reqs.push(r);
             }
             let total = total_len(&conv);
             let script = if split && total > 2 {
